@@ -623,18 +623,42 @@ func runC11(c *Ctx) {
 	inN := func(in ssa.Instruction) bool { // the 'N' region of the function
 		return sun != pcu || core.InstrDominates(nWriteSite, in)
 	}
+	// a step that hands back only the version (and the error): the connection and reader that continue are the ones its
+	// caller returns after the call - they must be the caller's own
+	handsBackConn := false
+	for i := 0; i < sun.Signature.Results().Len(); i++ {
+		if core.IsNamed(sun.Signature.Results().At(i).Type(), "net", "Conn") {
+			handsBackConn = true
+		}
+	}
+	if !handsBackConn && sun != pcu {
+		for _, ci := range nCalls {
+			for _, r := range returns(pcu) {
+				if !core.InstrDominates(ci, r) {
+					continue
+				}
+				R.Check(len(r.Results) >= 2 && r.Results[0] == ssa.Value(connP2) && r.Results[1] == ssa.Value(readerP2), "C11.R3", "sslUnsupported:same-conn-and-reader", c.at(r), "after 'N' the same connection and reader continue", "the caller of the 'N' step returns its own conn and reader parameters", "after the 'N' step a different connection or reader is returned (bytes already buffered behind the SSLRequest would be lost or re-framed)")
+			}
+		}
+	}
 	for _, r := range returns(sun) {
-		if !inN(r) {
+		if !inN(r) || (!handsBackConn && sun != pcu) {
 			continue
 		}
 		R.Check(r.Results[0] == ssa.Value(nConn) && r.Results[1] == ssa.Value(nReader), "C11.R3", "sslUnsupported:same-conn-and-reader", c.at(r), "after 'N' the same connection and reader continue", "returns its conn and reader parameters", "sslUnsupported returns a different connection or reader (bytes already buffered behind the SSLRequest would be lost or re-framed)")
 	}
 	rv := c.P.Method("wire", "Server", "readVersion")
+	if rv == nil {
+		rv = c.P.Func("wire", "readVersion") // the receiver is not needed: it may be a plain function
+	}
+	nRV := 0
 	for _, ci := range callsIn(sun, calleeIs(rv)) {
 		if !inN(ci) {
 			continue
 		}
-		R.Check(ci.Common().Args[1] == ssa.Value(nReader), "C11.R3", "sslUnsupported:rereads-on-same-reader", c.at(ci), "the fresh start-up packet is read through the same reader", "readVersion(reader parameter)", "the version is re-read through a different reader")
+		nRV++
+		rvArgs := ci.Common().Args
+		R.Check(len(rvArgs) > 0 && rvArgs[len(rvArgs)-1] == ssa.Value(nReader), "C11.R3", "sslUnsupported:rereads-on-same-reader", c.at(ci), "the fresh start-up packet is read through the same reader", "readVersion(reader parameter)", "the version is re-read through a different reader")
 		// cancel refused
 		ver := resultOf(ci.(*ssa.Call), 0)
 		refused := false
@@ -645,9 +669,25 @@ func runC11(c *Ctx) {
 					refused = true
 				}
 			}
+			// or the edge sets the error that a shared return hands back (err = errors.New(..) ... return .., err)
+			if _, ok := blk.Instrs[len(blk.Instrs)-1].(*ssa.Jump); ok && len(blk.Succs) == 1 {
+				join := blk.Succs[0]
+				if r, ok := join.Instrs[len(join.Instrs)-1].(*ssa.Return); ok {
+					if ph, isPhi := errOperand(r).(*ssa.Phi); isPhi && ph.Block() == join {
+						for i, pred := range join.Preds {
+							if pred == blk && i < len(ph.Edges) {
+								if cls := c.Err().Classify(ph.Edges[i], blk); cls.NeverNil() {
+									refused = true
+								}
+							}
+						}
+					}
+				}
+			}
 		}
 		R.Check(refused, "C11.R3", "sslUnsupported:cancel-refused", c.at(ci), "a CancelRequest after the SSL negotiation is refused (non-nil error, the connection ends)", "the version == CancelRequest edge returns a non-nil error", "a CancelRequest after 'N' is not refused")
 	}
+	R.Floor("C11.R3", "re-reads of the version after 'N'", nRV, 1)
 	// 'N' write on the conn parameter
 	nWrites := 0
 	for _, ci := range core.Calls(sun) {
